@@ -236,7 +236,8 @@ def check_expectations(case, hist, key0):
                 okay = rr[0] == "item" and rr[1] == exp[4:]
                 rule = "sibling-disturbed"
             elif exp == "alive":
-                okay = rr[0] == "item" and rr[2] == "str:'alive'"
+                # (bytes instead of str if the gateway was reconfigured with py3str_as_py2str=True)
+                okay = rr[0] == "item" and "alive" in rr[2] and len(rr[2]) < 40
                 rule = "gateway-not-alive"
             elif exp == "eof":
                 okay = rr[0] == "exc" and rr[1] == "EOFError"
